@@ -155,6 +155,26 @@ func main() {
 			i++
 			replayMapTrace(i, *seed*1000003+int64(i), b, enc)
 		}
+	case "trans-map":
+		enc, done := openOut(*out)
+		defer done()
+		f, err := os.Open(*in)
+		if err != nil {
+			fmt.Fprintln(os.Stderr, err)
+			os.Exit(2)
+		}
+		sc := bufio.NewScanner(f)
+		sc.Buffer(make([]byte, 1<<20), 1<<26)
+		i := 0
+		for sc.Scan() {
+			var t transT
+			if err := json.Unmarshal(sc.Bytes(), &t); err != nil {
+				fmt.Fprintln(os.Stderr, "bad transition:", err)
+				os.Exit(2)
+			}
+			i++
+			transMapTrace(2000000+i, *seed*1000003+int64(i), t, enc)
+		}
 	case "store":
 		enc, done := openOut(*out)
 		defer done()
